@@ -999,9 +999,13 @@ class SpecGen:
                 n["unname"] = True
             if self.nconfigs and rng.random() < 0.3:
                 cands = [x for x in n["inputs"] if x is not None] + [o["name"] for o in n["outs"]]
-                specs = [{"value": rng.choice(cands + [None]) if cands else None, "device": [0, 1]}
-                         for _ in range(rng.randrange(0, 3))]  # fmt: skip
-                n["dev"] = [{"cfg": rng.randrange(self.nconfigs), "specs": specs, "stage": rng.choice([None, 0, 1])}]
+                n["dev"] = []
+                for _ in range(rng.choice([1, 1, 2, 3])):
+                    # configurations with nothing to remap (no specs / value None) next to ones with values
+                    specs = [{"value": rng.choice(cands + [None]) if cands else None, "device": [0, 1]}
+                             for _ in range(rng.choice([0, 0, 1, 2]))]  # fmt: skip
+                    n["dev"].append({"cfg": rng.randrange(self.nconfigs), "specs": specs,
+                                     "stage": rng.choice([None, 0, 1])})  # fmt: skip
             g["nodes"].append(n)
             local += [o["name"] for o in n["outs"]]
         produced = [o["name"] for n in g["nodes"] for o in n["outs"]]
@@ -1024,7 +1028,42 @@ class SpecGen:
         return g
 
 
+def gen_spec_failing_after_nested(rng):
+    """g1(x): a = Relu(x) -> va; i = If(va){g2}.  g2 holds a node with a nested graph g3 that captures values of
+    g1, and then fails to clone: an output nothing defines, or a use before definition.  Target: g2 with
+    allow_outer_scope_values=True, so the finished g3' nodes consume the ORIGINAL's outer values when g2 fails."""
+    sg = SpecGen(rng, 2)
+    x, va = sg.value("x"), sg.value("v")
+    g3_nodes = []
+    for _ in range(rng.randrange(1, 3)):
+        g3_nodes.append({"name": sg.name("n"), "op": "Add", "inputs": [rng.choice([va["name"], x["name"]]), x["name"]],
+                         "outs": [sg.value("v")], "attrs": []})  # fmt: skip
+    g3 = {"name": "g3", "inputs": [], "inits": [], "nodes": g3_nodes, "outputs": [g3_nodes[-1]["outs"][0]["name"]]}
+    loop = {"name": sg.name("n"), "op": "Loop", "inputs": [va["name"]] if rng.random() < 0.5 else [],
+            "outs": [sg.value("v")], "attrs": [{"name": "body", "kind": "graph", "value": g3}]}  # fmt: skip
+    g2_nodes = [loop]
+    outputs = [loop["outs"][0]["name"]]
+    g2 = {"name": "g2", "inputs": [], "inits": [], "nodes": g2_nodes, "outputs": outputs}
+    how = rng.choice(["ghost", "unsorted", "unsorted"])
+    if how == "ghost":
+        g2["ghost_outputs"] = [sg.name("ghost")]
+    else:
+        d = {"name": sg.name("n"), "op": "Relu", "inputs": [loop["outs"][0]["name"]], "outs": [sg.value("v")], "attrs": []}
+        b = {"name": sg.name("n"), "op": "Neg", "inputs": [d["outs"][0]["name"]], "outs": [sg.value("v")], "attrs": []}
+        g2_nodes += [b, d]  # b uses d's output before d
+        g2["unsorted"] = True
+    g1 = {"name": "g1", "inputs": [x], "inits": [], "outputs": [],
+          "nodes": [{"name": sg.name("n"), "op": "Relu", "inputs": [x["name"]], "outs": [va], "attrs": []},
+                    {"name": sg.name("n"), "op": "If", "inputs": [va["name"]], "outs": [sg.value("v")],
+                     "attrs": [{"name": "then_branch", "kind": "graph", "value": g2}]}]}  # fmt: skip
+    g1["outputs"] = [g1["nodes"][1]["outs"][0]["name"]]
+    return {"ntensors": 3, "type_pool": [], "shape_pool": [], "nconfigs": 0, "graph": g1, "functions": [], "views": [],
+            "target": {"kind": "subgraph", "name": "g2", "allow": rng.random() < 0.85}}  # fmt: skip
+
+
 def gen_spec(rng, size=4):
+    if rng.random() < 0.04:
+        return gen_spec_failing_after_nested(rng)
     sg = SpecGen(rng, size)
     spec = {
         "ntensors": 3,
@@ -1041,6 +1080,13 @@ def gen_spec(rng, size=4):
         f = {"domain": "fdom", "name": f"f{k}", "graph": sg.graph(1, []), "attrs": []}
         if rng.random() < 0.5:
             f["attrs"].append({"name": "alpha", "kind": "int", "value": 1})
+        if rng.random() < 0.5:
+            # an attribute DECLARATION of type GRAPH / GRAPHS with a default value
+            if rng.random() < 0.6:
+                f["attrs"].append({"name": "default_body", "kind": "graph", "value": sg.graph(0, [])})
+            else:
+                f["attrs"].append({"name": "default_branches", "kind": "graphs",
+                                   "value": [sg.graph(0, []) for _ in range(rng.randrange(1, 3))]})  # fmt: skip
         spec["functions"].append(f)
     if rng.random() < 0.3:
         spec["model_props"] = {"mk": "mv"}
